@@ -194,9 +194,43 @@ class ExcFlow:
                 out |= set(self.raises(t, mode, b2, depth + 1))
         return out
 
+    @classmethod
+    def _mode_test(cls, t):
+        """(True, negated) when the test is ``[not] self.stop_at_first_error``."""
+        neg = False
+        if isinstance(t, ast.UnaryOp) and isinstance(t.op, ast.Not):
+            t, neg = t.operand, True
+        if isinstance(t, ast.Attribute) and t.attr == "stop_at_first_error" and isinstance(t.value, ast.Name) and t.value.id == "self":
+            return True, neg
+        return False, False
+
+    @classmethod
+    def _terminates(cls, stmts, mode) -> bool:
+        """The block never falls through to the statement after it (in the given error mode)."""
+        for s in stmts:
+            if isinstance(s, (ast.Return, ast.Raise, ast.Break, ast.Continue)):
+                return True
+            if isinstance(s, ast.If):
+                is_mode, neg = cls._mode_test(s.test)
+                if is_mode:
+                    if cls._terminates(s.body if (mode == "stop") != neg else s.orelse, mode):
+                        return True
+                elif cls._terminates(s.body, mode) and cls._terminates(s.orelse, mode):
+                    return True
+            elif isinstance(s, ast.Try):
+                if s.finalbody and cls._terminates(s.finalbody, mode):
+                    return True
+                if cls._terminates(list(s.body) + list(s.orelse), mode) and all(cls._terminates(h.body, mode) for h in s.handlers):
+                    return True
+            elif isinstance(s, ast.With) and cls._terminates(s.body, mode):
+                return True
+        return False
+
     def _block(self, fi, stmts, mode, bindings, local_types, exc_vars, depth) -> set:
         out = set()
-        for s in stmts:
+        for i_, s in enumerate(stmts):
+            if i_ and self._terminates(stmts[i_ - 1:i_], mode):
+                break           # unreachable in this mode
             if isinstance(s, (ast.FunctionDef, ast.AsyncFunctionDef, ast.ClassDef)):
                 continue
             if isinstance(s, ast.Raise):
